@@ -296,7 +296,7 @@ public:
 	bool enqueue(const std::string& what, Level lev=Logger::Info, const char *fl=nullptr, const unsigned val=0)
 	{
 		const LogElement le(f8_thread<Logger>::getid(), what, lev, fl, val);
-		return _msg_queue.try_push (le) == 0;
+		return _msg_queue.try_push (le);
 	}
 
 	/*! Log a string with log level.
